@@ -434,8 +434,10 @@ def run_case(case):
                 acc.violate('consensus-cli-raised:' + type(exc).__name__, f'--consensus run raised {exc!r} ({cfg}); {txt[-300:]}', {'config': cfg})
             else:
                 orecs, hdr, info = T.load_records(out)
-                cons = [a for a in orecs if a.query_name.startswith('molecule_')]
-                src = [a for a in orecs if not a.query_name.startswith('molecule_')]
+                # how consensus records are named is the tool's business: a source read is a record that carries the name of an input read
+                src_names = set(x['name'] for x in recs) | set(F.restored_name(F.id_from_name(x['name']), case['i'] + 1) for x in recs)
+                cons = [a for a in orecs if a.query_name not in src_names]
+                src = [a for a in orecs if a.query_name in src_names]
                 acc.count('cli:consensus_reads_checked', len(cons))
                 if no_src and src:
                     acc.violate('source-reads-written-despite-no_source_reads', f'{len(src)} source reads in the output', {'config': cfg})
